@@ -29,46 +29,46 @@ Lemma plain_inconclusive ks sts p r m :
 Proof. intros H (x & Hx & Hc) Hp. eapply kloop_inconclusive; eauto. Qed.
 
 (* MinPathCover *)
-Theorem mpc_search_sound lb ne sts k :
-  res (mpc_solve lb ne sts) = Solved k ->
-  lb <= k < ne /\
-  map status_of (firstn (used (mpc_solve lb ne sts)) sts) = repeat Infeasible (k - lb) ++ [Optimal].
+Theorem mpc_search_sound ex lb ne sts k :
+  res (mpc_solve ex lb ne sts) = Solved k ->
+  lb <= k < upper ex ne /\
+  map status_of (firstn (used (mpc_solve ex lb ne sts)) sts) = repeat Infeasible (k - lb) ++ [Optimal].
 Proof.
-  unfold mpc_solve. destruct (kloop never never (krange lb ne) sts 0) as [r m] eqn:E. simpl.
+  unfold mpc_solve. destruct (kloop never never (krange lb (upper ex ne)) sts 0) as [r m] eqn:E. simpl.
   intros ->. apply plain_sound in E. exact E.
 Qed.
 
-Theorem mpc_search_inconclusive lb ne sts p :
-  inconclusive_at sts p -> p < used (mpc_solve lb ne sts) -> res (mpc_solve lb ne sts) = NotSolved.
+Theorem mpc_search_inconclusive ex lb ne sts p :
+  inconclusive_at sts p -> p < used (mpc_solve ex lb ne sts) -> res (mpc_solve ex lb ne sts) = NotSolved.
 Proof.
-  unfold mpc_solve. destruct (kloop never never (krange lb ne) sts 0) as [r m] eqn:E. simpl.
+  unfold mpc_solve. destruct (kloop never never (krange lb (upper ex ne)) sts 0) as [r m] eqn:E. simpl.
   intros Hi Hp. eapply plain_inconclusive; eauto.
 Qed.
 
-Theorem mpc_search_inconclusive_first lb ne pre x post :
+Theorem mpc_search_inconclusive_first ex lb ne pre x post :
   Forall (fun y => status_of y = Infeasible) pre -> conclusive (status_of x) = false ->
-  res (mpc_solve lb ne (pre ++ x :: post)) = NotSolved.
+  res (mpc_solve ex lb ne (pre ++ x :: post)) = NotSolved.
 Proof.
   intros Hp Hx. unfold mpc_solve.
-  pose proof (kloop_first_inconclusive (krange lb ne) pre x post 0 Hp Hx) as H.
-  destruct (kloop never never (krange lb ne) (pre ++ x :: post) 0). exact H.
+  pose proof (kloop_first_inconclusive (krange lb (upper ex ne)) pre x post 0 Hp Hx) as H.
+  destruct (kloop never never (krange lb (upper ex ne)) (pre ++ x :: post) 0). exact H.
 Qed.
 
 (* MinPathCoverCycles *)
-Theorem mpcc_search_sound lb ne sts k :
-  res (mpcc_solve lb ne sts) = Solved k ->
-  lb <= k < ne /\
-  map status_of (firstn (used (mpcc_solve lb ne sts)) sts) = repeat Infeasible (k - lb) ++ [Optimal].
-Proof. exact (mpc_search_sound lb ne sts k). Qed.
+Theorem mpcc_search_sound ex lb ne sts k :
+  res (mpcc_solve ex lb ne sts) = Solved k ->
+  lb <= k < upper ex ne /\
+  map status_of (firstn (used (mpcc_solve ex lb ne sts)) sts) = repeat Infeasible (k - lb) ++ [Optimal].
+Proof. exact (mpc_search_sound ex lb ne sts k). Qed.
 
-Theorem mpcc_search_inconclusive lb ne sts p :
-  inconclusive_at sts p -> p < used (mpcc_solve lb ne sts) -> res (mpcc_solve lb ne sts) = NotSolved.
-Proof. exact (mpc_search_inconclusive lb ne sts p). Qed.
+Theorem mpcc_search_inconclusive ex lb ne sts p :
+  inconclusive_at sts p -> p < used (mpcc_solve ex lb ne sts) -> res (mpcc_solve ex lb ne sts) = NotSolved.
+Proof. exact (mpc_search_inconclusive ex lb ne sts p). Qed.
 
-Theorem mpcc_search_inconclusive_first lb ne pre x post :
+Theorem mpcc_search_inconclusive_first ex lb ne pre x post :
   Forall (fun y => status_of y = Infeasible) pre -> conclusive (status_of x) = false ->
-  res (mpcc_solve lb ne (pre ++ x :: post)) = NotSolved.
-Proof. exact (mpc_search_inconclusive_first lb ne pre x post). Qed.
+  res (mpcc_solve ex lb ne (pre ++ x :: post)) = NotSolved.
+Proof. exact (mpc_search_inconclusive_first ex lb ne pre x post). Qed.
 
 (* ------------------------------------------------------------------ MinGenSet *)
 (* corrected model (switch off) *)
@@ -156,12 +156,12 @@ Proof.
   destruct (lb_phase sk ex (use_mgs P) (lb0 P) (nweights P) sts) as [lb n1|n|n]; simpl; try lia.
   destruct (guessed P).
   - destruct (skipn n1 sts) as [|y sts2] eqn:Es; simpl; [lia|].
-    destruct (kloop _ (over P) (krange lb (nedges P)) sts2 (S n1)) as [r m] eqn:E. simpl. intros Hp.
+    destruct (kloop _ (over P) (krange lb (upper (upper_excl P) (nedges P))) sts2 (S n1)) as [r m] eqn:E. simpl. intros Hp.
     eapply (kloop_inconclusive _ _ _ _ _ (p - S n1) x) in E; eauto; [|lia].
     assert (H : nth_error (skipn n1 sts) (S (p - S n1)) = Some x).
     { rewrite nth_error_skipn'. replace (n1 + S (p - S n1)) with p by lia. exact Hx. }
     rewrite Es in H. exact H.
-  - destruct (kloop (greedy P) (over P) (krange lb (nedges P)) (skipn n1 sts) n1) as [r m] eqn:E. simpl. intros Hp.
+  - destruct (kloop (greedy P) (over P) (krange lb (upper (upper_excl P) (nedges P))) (skipn n1 sts) n1) as [r m] eqn:E. simpl. intros Hp.
     eapply (kloop_inconclusive _ _ _ _ _ (p - n1) x) in E; eauto; [|lia].
     rewrite nth_error_skipn'. replace (n1 + (p - n1)) with p by lia. exact Hx.
 Qed.
@@ -171,7 +171,7 @@ Qed.
 Theorem fd_sound_main sk ex P sts k :
   res (fd_solve sk ex P sts) = Solved k ->
   let o := fd_solve sk ex P sts in
-  lbk o <= k < nedges P /\ aux o <= used o /\ over P (used o) = false /\
+  lbk o <= k < upper (upper_excl P) (nedges P) /\ aux o <= used o /\ over P (used o) = false /\
   exists tail,
     map status_of (firstn (used o - aux o) (skipn (aux o) sts)) = repeat Infeasible (k - lbk o) ++ tail /\
     (tail = [Optimal] \/
@@ -183,7 +183,7 @@ Proof.
   destruct (lb_phase sk ex (use_mgs P) (lb0 P) (nweights P) sts) as [lb n1|n|n]; simpl; try discriminate.
   destruct (guessed P) eqn:Eg.
   - destruct (skipn n1 sts) as [|y sts2] eqn:Es; simpl; [discriminate|].
-    destruct (kloop _ (over P) (krange lb (nedges P)) sts2 (S n1)) as [r m] eqn:E. simpl. intros ->.
+    destruct (kloop _ (over P) (krange lb (upper (upper_excl P) (nedges P))) sts2 (S n1)) as [r m] eqn:E. simpl. intros ->.
     pose proof (kloop_used _ _ _ _ _ _ _ E) as Hu.
     apply kloop_sound in E. destruct E as (ks1 & ks2 & Hk & _ & Hm & Hs & Ho).
     apply krange_split in Hk. destruct Hk as [Hk Hr].
@@ -201,7 +201,7 @@ Proof.
     + assert (Hn : nth_error (skipn n1 sts) 0 = Some y) by (rewrite Es; reflexivity).
       rewrite nth_error_skipn', Nat.add_0_r in Hn. rewrite ?Nat.sub_0_r. exact Hn.
     + destruct (status_of y); simpl in Ey; congruence.
-  - destruct (kloop (greedy P) (over P) (krange lb (nedges P)) (skipn n1 sts) n1) as [r m] eqn:E. simpl. intros ->.
+  - destruct (kloop (greedy P) (over P) (krange lb (upper (upper_excl P) (nedges P))) (skipn n1 sts) n1) as [r m] eqn:E. simpl. intros ->.
     pose proof (kloop_used _ _ _ _ _ _ _ E) as Hu.
     apply kloop_sound in E. destruct E as (ks1 & ks2 & Hk & _ & Hm & Hs & Ho).
     apply krange_split in Hk. destruct Hk as [Hk Hr].
@@ -228,8 +228,8 @@ Proof.
     split; [exact Hu|]. exists kg, n1. repeat split; auto. }
   destruct (guessed P).
   - destruct (skipn n1 sts) as [|y sts2]; [apply Hl; simpl; lia|].
-    destruct (kloop _ (over P) (krange lb (nedges P)) sts2 (S n1)). apply Hl; simpl; lia.
-  - destruct (kloop (greedy P) (over P) (krange lb (nedges P)) (skipn n1 sts) n1). apply Hl; simpl; lia.
+    destruct (kloop _ (over P) (krange lb (upper (upper_excl P) (nedges P))) sts2 (S n1)). apply Hl; simpl; lia.
+  - destruct (kloop (greedy P) (over P) (krange lb (upper (upper_excl P) (nedges P))) (skipn n1 sts) n1). apply Hl; simpl; lia.
 Qed.
 
 (* without the exit switch the interpreter is never left *)
@@ -244,19 +244,19 @@ Proof.
   - destruct (guessed P).
     + destruct (skipn n1 sts) as [|y sts2]; [discriminate|].
       specialize (Hk (fun k => given_match (if is_optimal (status_of y) then Some (gw_paths P) else None) k || greedy P k)
-                     (over P) (krange lb (nedges P)) sts2 (S n1)).
-      destruct (kloop _ (over P) (krange lb (nedges P)) sts2 (S n1)). exact Hk.
-    + specialize (Hk (greedy P) (over P) (krange lb (nedges P)) (skipn n1 sts) n1).
-      destruct (kloop (greedy P) (over P) (krange lb (nedges P)) (skipn n1 sts) n1). exact Hk.
+                     (over P) (krange lb (upper (upper_excl P) (nedges P))) sts2 (S n1)).
+      destruct (kloop _ (over P) (krange lb (upper (upper_excl P) (nedges P))) sts2 (S n1)). exact Hk.
+    + specialize (Hk (greedy P) (over P) (krange lb (upper (upper_excl P) (nedges P))) (skipn n1 sts) n1).
+      destruct (kloop (greedy P) (over P) (krange lb (upper (upper_excl P) (nedges P))) (skipn n1 sts) n1). exact Hk.
   - unfold lb_phase in El. destruct (use_mgs P); [|discriminate].
     destruct (mgs_loop sk _ sts 0) as [[] ?]; discriminate.
 Qed.
 
 (* --- MinFlowDecomp *)
 Definition mfd_view (P : fd_params) : fd_params :=
-  mkfd (lb0 P) (nedges P) (use_mgs P) (nweights P) (guessed P) (gw_paths P) (greedy P) never.
+  mkfd (lb0 P) (upper_excl P) (nedges P) (use_mgs P) (nweights P) (guessed P) (gw_paths P) (greedy P) never.
 Definition mfdc_view (P : fd_params) : fd_params :=
-  mkfd (lb0 P) (nedges P) (use_mgs P) (nweights P) (guessed P) (gw_paths P) never (over P).
+  mkfd (lb0 P) (upper_excl P) (nedges P) (use_mgs P) (nweights P) (guessed P) (gw_paths P) never (over P).
 
 Theorem mfd_main_inconclusive sk ex P sts p :
   inconclusive_at sts p -> aux (mfd_solve sk ex P sts) <= p < used (mfd_solve sk ex P sts) ->
@@ -270,7 +270,7 @@ Theorem mfd_search_sound ex P sts k :
   (lbk o = lb0 P \/
    (use_mgs P = true /\ exists kg m, lbk o = Nat.max (lb0 P) kg /\ lb0 P <= kg /\ m <= aux o /\
       map status_of (firstn m sts) = repeat Infeasible (kg - lb0 P) ++ [Optimal])) /\
-  lbk o <= k < nedges P /\ aux o <= used o /\
+  lbk o <= k < upper (upper_excl P) (nedges P) /\ aux o <= used o /\
   exists tail,
     map status_of (firstn (used o - aux o) (skipn (aux o) sts)) = repeat Infeasible (k - lbk o) ++ tail /\
     (tail = [Optimal] \/
@@ -290,7 +290,7 @@ Theorem mfd_refuted_skipped_lowerbound :
     inconclusive_at sts p /\ p < aux (mfd_solve true true P sts) /\
     res (mfd_solve true true P sts) = Solved k /\ lb0 P + p < lbk (mfd_solve true true P sts).
 Proof.
-  exists (mkfd 1 4 true 3 false 0 never never),
+  exists (mkfd 1 true 4 true 3 false 0 never never),
          [mkraw TimeLimit false; mkraw Optimal false; mkraw Optimal false], 0, 2.
   split; [exists (mkraw TimeLimit false); split; reflexivity|]. vm_compute. repeat split; lia.
 Qed.
@@ -299,7 +299,7 @@ Qed.
 Theorem mfd_refuted_exit : forall sk,
   exists P sts p, inconclusive_at sts p /\ res (mfd_solve sk true P sts) = Exited.
 Proof.
-  intros sk. exists (mkfd 1 4 true 1 false 0 never never), [mkraw TimeLimit false], 0.
+  intros sk. exists (mkfd 1 true 4 true 1 false 0 never never), [mkraw TimeLimit false], 0.
   split; [exists (mkraw TimeLimit false); split; reflexivity|]. destruct sk; reflexivity.
 Qed.
 
@@ -318,7 +318,7 @@ Theorem mfdc_search_sound P sts k :
   (lbk o = lb0 P \/
    (use_mgs P = true /\ exists kg m, lbk o = Nat.max (lb0 P) kg /\ lb0 P <= kg /\ m <= aux o /\
       map status_of (firstn m sts) = repeat Infeasible (kg - lb0 P) ++ [Optimal])) /\
-  lbk o <= k < nedges P /\ aux o <= used o /\
+  lbk o <= k < upper (upper_excl P) (nedges P) /\ aux o <= used o /\
   over P (used o) = false /\                                   (* elapsed-time exit did not fire *)
   exists tail,
     map status_of (firstn (used o - aux o) (skipn (aux o) sts)) = repeat Infeasible (k - lbk o) ++ tail /\
@@ -337,7 +337,7 @@ Theorem mfdc_refuted_skipped_lowerbound :
     inconclusive_at sts p /\ p < aux (mfdc_solve true P sts) /\
     res (mfdc_solve true P sts) = Solved k /\ lb0 P + p < lbk (mfdc_solve true P sts).
 Proof.
-  exists (mkfd 1 4 true 3 false 0 never never),
+  exists (mkfd 1 true 4 true 3 false 0 never never),
          [mkraw TimeLimit false; mkraw Optimal false; mkraw Optimal false], 0, 2.
   split; [exists (mkraw TimeLimit false); split; reflexivity|]. vm_compute. repeat split; lia.
 Qed.
@@ -397,9 +397,9 @@ Theorem search_min (feasible : nat -> bool) lb ub kopt sts :
   (forall i, i < ub - lb -> exists x, nth_error sts i = Some x /\
              status_of x = if feasible (lb + i) then Optimal else Infeasible) ->
   feasible kopt = true -> (forall k, k < kopt -> feasible k = false) -> lb <= kopt < ub ->
-  res (mpc_solve lb ub sts) = Solved kopt.
+  res (mpc_solve true lb ub sts) = Solved kopt.
 Proof.
-  intros Ho Hf Hmin Hb. unfold mpc_solve, krange.
+  intros Ho Hf Hmin Hb. unfold mpc_solve, krange, upper.
   assert (G : forall len l s n, l + len = ub -> l <= kopt ->
               (forall i, i < len -> exists x, nth_error s i = Some x /\
                  status_of x = if feasible (l + i) then Optimal else Infeasible) ->
